@@ -208,7 +208,10 @@ def read_log(rundir: str) -> list[dict]:
 
 def read_trace(rundir: str) -> list[dict]:
     out = []
-    with open(os.path.join(rundir, "trace.log")) as f:
+    path = os.path.join(rundir, "trace.log")
+    if not os.path.exists(path):
+        raise MachineryError("the crash shim wrote no trace: LD_PRELOAD did not take effect")
+    with open(path) as f:
         for line in f:
             n, call, rel, size, off = line.split()
             out.append({"n": int(n), "call": call, "file": rel, "size": int(size), "off": int(off)})
@@ -264,62 +267,66 @@ def oracle(events: list[dict], rc: int, obs: dict | None, stderr: str) -> tuple[
         v.append((f"reopen-process-died:rc={rc}", f"the reopening process exited with {rc}: {last[:300]}"))
         return v, info
 
-    for db in ("identity", "wallet"):
-        o = obs[db]
-        for phase in ("open", "read", "close"):
-            res = o.get(phase)
-            if res is not None and res != "ok":
-                exc = res.split(":")[0]
-                where = res.rsplit("@", 1)[-1].strip()
-                v.append((f"reopen-{phase}-failed:{db}:{exc}@{where}", f"{db} database: {phase} raised {res}"))
-        raw = obs["raw_" + db]
-        if raw.get("error"):
-            v.append((f"raw-read-failed:{db}", f"plain sqlite3 cannot read the {db} file: {raw['error']}"))
-        elif raw.get("exists") and raw.get("integrity") != ["ok"]:
-            v.append((f"integrity:{db}", f"PRAGMA integrity_check on the {db} file: {raw.get('integrity')!r}"[:400]))
-
-    def compare(view: str, table: str, rows: list | None) -> None:
-        if rows is None:
-            return      # the read failed; already reported above
+    def compare(view: str, table: str, rows: list) -> bool:
         have = {tuple(r) for r in rows}
         lost = acked[table] - have
         alien = have - begun[table]
         if lost:
             v.append((f"acked-record-lost:{table}:{view}",
                       f"{len(lost)} record(s) of {table} whose insert call had returned are not in the reopened "
-                      f"database ({view} view), e.g. {short(sorted(lost)[0])}"))
+                      f"database ({view} view), e.g. {short(sorted(lost, key=repr)[0])}"))
         if alien:
             v.append((f"unknown-or-partial-record:{table}:{view}",
                       f"{len(alien)} row(s) of {table} visible after reopening ({view} view) are not a complete "
                       f"record of the workload, e.g. {short(sorted(alien, key=repr)[0])}"))
-        if pending and pending[0] == table:
+        if view == "file" and pending and pending[0] == table:
             info["in_progress_visible"] = pending[1] in have
+        return not lost and not alien
 
-    # A database the library cannot open again is reported once, above; its rows are then whatever the failed
-    # open left behind and are not judged a second time.
-    rid, rw = obs["raw_identity"], obs["raw_wallet"]
-    if not rid.get("error") and obs["identity"].get("open") == "ok":
-        for t in ("Tokens", "Metadata", "Attestations"):
-            compare("file", t, rid.get(t, []))
-    if not rw.get("error") and obs["wallet"].get("open") == "ok":
-        compare("file", "attestations", rw.get("attestations", []))
-    oi = obs["identity"]
-    if oi.get("read") == "ok":
-        for t, field in (("Tokens", "tokens"), ("Metadata", "metadata"), ("Attestations", "attestations")):
-            compare("library", t, oi["own"][field] + oi["foreign"][field])
-        bad = sorted({b.split(":")[0] for b in oi["own"]["bad"] + oi["foreign"]["bad"]})
-        for b in bad:
-            v.append((f"pseudonym-does-not-verify:{b}", f"rebuilt pseudonym fails verification: "
-                      f"{(oi['own']['bad'] + oi['foreign']['bad'])[:4]}"))
-        if oi["own"]["dangling_metadata"]:
-            v.append(("pseudonym-does-not-verify:metadata-without-token",
-                      f"own metadata whose token is not in the rebuilt tree: {oi['own']['dangling_metadata'][:4]}"))
-    ow = obs["wallet"]
-    if ow.get("read") == "ok":
-        compare("library", "attestations", ow["rows"])
-        if ow["by_hash_mismatch"]:
-            v.append(("wallet-lookup-by-hash", f"get_attestation_by_hash disagrees with get_all for "
-                      f"{ow['by_hash_mismatch'][:4]}"))
+    # Per database the checks are tiered, so that one root cause gives one key: cannot open > file damaged >
+    # cannot read/close > rows in the file > rows as the library loads them > pseudonym verification.
+    for db in ("identity", "wallet"):
+        o, raw = obs[db], obs["raw_" + db]
+        tables = [t for t, d in TABLES.items() if d == db]
+
+        def failed(phase: str) -> bool:
+            res = o.get(phase)
+            if res is None or res == "ok":
+                return False
+            exc = res.split(":")[0]
+            where = res.rsplit("@", 1)[-1].strip()
+            v.append((f"reopen-{phase}-failed:{db}:{exc}@{where}", f"{db} database: {phase} raised {res}"))
+            return True
+
+        if not raw.get("exists"):
+            for t in tables:        # the kill came before the file was created: nothing can have been acknowledged
+                compare("file", t, [])
+            continue
+        if failed("open"):
+            continue
+        if raw.get("error") or raw.get("integrity") != ["ok"]:
+            v.append((f"file-damaged:{db}", f"plain sqlite3 on the {db} file after the library reopened and closed it: "
+                      f"{raw.get('error') or raw.get('integrity')!r}"[:400]))
+            continue
+        file_ok = {t: compare("file", t, raw.get(t, [])) for t in tables}
+        if failed("read") | failed("close"):
+            continue
+        if db == "identity":
+            for t, field in (("Tokens", "tokens"), ("Metadata", "metadata"), ("Attestations", "attestations")):
+                if file_ok[t]:
+                    compare("library", t, o["own"][field] + o["foreign"][field])
+            if all(file_ok.values()):
+                allbad = o["own"]["bad"] + o["foreign"]["bad"]
+                for b in sorted({b.split(":")[0] for b in allbad}):
+                    v.append((f"pseudonym-does-not-verify:{b}", f"rebuilt pseudonym fails verification: {allbad[:4]}"))
+                if o["own"]["dangling_metadata"]:
+                    v.append(("pseudonym-does-not-verify:metadata-without-token", "own metadata whose token is not in "
+                              f"the rebuilt tree: {o['own']['dangling_metadata'][:4]}"))
+        elif file_ok["attestations"]:
+            compare("library", "attestations", o["rows"])
+            if o["by_hash_mismatch"]:
+                v.append(("wallet-lookup-by-hash", f"get_attestation_by_hash disagrees with get_all for "
+                          f"{o['by_hash_mismatch'][:4]}"))
     return v, info
 
 
@@ -484,6 +491,11 @@ def run(ctx: core.Ctx) -> core.Report:
         core.eprint(f"C19: machinery failure: {e}")
         cleanup()
         sys.exit(2)
+    except Exception:  # noqa: BLE001
+        import traceback
+        core.eprint("C19: machinery failure:\n" + traceback.format_exc())
+        cleanup()
+        sys.exit(2)
     finally:
         cleanup()
 
@@ -503,7 +515,8 @@ def _run(ctx: core.Ctx) -> core.Report:
             _PLAN[(wi, session)] = p
             for key, what in p["baseline_violations"]:
                 violations.setdefault("no-crash:" + key, core.Violation(
-                    "no-crash:" + key, f"[{w['name']} session {session}, no crash at all] {what}",
+                    "no-crash:" + key, f"[{w['name']} session {session}, no kill injected (the session ends with "
+                                       f"{w['sessions'][session].get('end', 'close')!r})] {what}",
                     {"workload": w, "session": session, "chain": []}))
             mine = plan_items(ctx, wi, session, p)
             items += mine
@@ -546,6 +559,8 @@ def _run(ctx: core.Ctx) -> core.Report:
                 where = f"{w['name']} session {r['session']}, killed at " + " then ".join(describe(c) for c in r["chain"])
                 violations[key] = core.Violation(key, f"[{where}; {r['info']['acked']} inserts acknowledged] {what}",
                                                  {"workload": w, "session": r["session"], "chain": r["chain"]})
+    for key in [k for k in violations if "no-crash:" + k in violations]:
+        del violations[key]     # the same thing already happens without any crash; reported once, as no-crash
     samples = [{"workload": ws[r["wi"]]["name"], "session": r["session"],
                 "killed_at": [describe(c) for c in r["chain"]], "acknowledged_inserts": r["info"]["acked"],
                 "insert_in_progress": r["info"]["in_progress"],
